@@ -74,6 +74,7 @@ class Ctx:
         self.tallies = defaultdict(lambda: [0, 0])   # name -> [successes, trials]
         self.samples = []
         self.notes = Counter()          # free-form counters for the evidence file
+        self.sets = defaultdict(set)    # name -> distinct values observed (reported as counts)
         self.spec = None                # spec of the case being executed
         self.case_index = None
         self.max_events = 400
@@ -135,6 +136,9 @@ class Ctx:
     def note(self, name, n=1):
         self.notes[name] += n
 
+    def distinct(self, name, value):
+        self.sets[name].add(str(value))
+
     def sample(self, obj):
         if len(self.samples) < 6:
             self.samples.append(jsonable(obj))
@@ -153,6 +157,7 @@ class Ctx:
             'nontrivial': sorted(self.nontrivial), 'stats': self.stats,
             'tallies': {k: v for k, v in self.tallies.items()},
             'samples': self.samples, 'notes': dict(self.notes),
+            'sets': {k: sorted(v) for k, v in self.sets.items()},
         }
 
 
